@@ -175,11 +175,13 @@ impl Scheduler for SimScheduler {
                     // Each pass calls twice. To continue, a pass must resolve at least one item
                     // (a resolved item never becomes unresolved again) or bring at least one
                     // generated item into existence (at most one per item): a build that ends
-                    // makes at most 2*(2U+1) calls, U = distinct items ever seen in the worklist.
+                    // makes at most 2*(2U+1) calls, U = distinct items ever seen in the worklist. The budget
+                    // is twice that plus slack, so that a correct loop that asks a little more
+                    // often is not mistaken for a hang.
                     // Anything beyond is a hang, found deterministically, not by a wall clock.
                     let budget = self
                         .budget_override
-                        .unwrap_or(4 * t.seen_unresolved.len() as u32 + 8);
+                        .unwrap_or(8 * t.seen_unresolved.len() as u32 + 32);
                     if t.unresolved_calls > budget {
                         t.budget_exceeded = true;
                         true
